@@ -94,6 +94,13 @@ def gen_case(rng, tier, g):
             t = gen_table(rng, maxrows, minrows=1, nfields=nf,
                           ragged=False if rec.rect else None)
         tables.append(t)
+    if rec.profile != 'sorted' and tables and rng.random() < 0.12:
+        # a blank line in the data: a row whose cells all equal the usual
+        # `missing` filler (None, or '' for the recipes run with missing='')
+        t = tables[rng.randrange(len(tables))]
+        if len(t) > 1:
+            t.insert(rng.randint(1, len(t)),
+                     [rng.choice([None, None, ''])] * len(t[0]))
     nviews = 2 if rec.multi else 1
     steps, shape = gen_schedule(rng, nviews=nviews,
                                 ntasks=rng.choice([1, 2, 2, 3]),
